@@ -1,6 +1,7 @@
 #![allow(dead_code)]
 //! `vh` — conformance harness binding the TLA+ specifications in /verif/spec to the
 //! implementation in /repo (built from the current working tree with --cfg simplesl_verif).
+mod api;
 mod arith;
 mod conc;
 mod eqv;
@@ -42,6 +43,7 @@ fn main() {
             "total" => out(&total::run(&args[2..])),
             "lang" => out(&lang::run(&args[2..])),
             "gen" => out(&progen::run(&args[2..])),
+            "api" => out(&api::run(&args[2..])),
             "det" => {
                 lang::det(&args[2..]);
             }
